@@ -33,7 +33,9 @@ EXPLANATION = (
     "over its membership atoms (any further atom must not change the answer); the arithmetic of the route lookup itself is not "
     "decided. R6.5 = C07's rules R7.1/R7.2/R7.5 (first-match scan, field-by-field matcher, wildcard per-bit table) and R6.6 = "
     "C12's R12.1/R12.2 (power-state writers, interfaces disabled when leaving ON, enable gated on ON) applied here: a deny rule "
-    "blocks only if the matcher matches and the scan stops there, a powered-off device is silent only if its interfaces stay down."
+    "blocks only if the matcher matches and the scan stops there, a powered-off device is silent only if its interfaces stay down. "
+    "R6.7 Router.check_send_frame_to_session_manager is true exactly for frames addressed to an own interface that are ICMP or "
+    "aimed at an open port (8-row table) - the premise under which RouterICMP may re-enter process_frame."
 )
 TECHNIQUE = "static: CFG must-pass (verdict before effect) per filter function, zone call-graph check, who-may-call inventories, module layering check"
 ASSUMPTIONS = ["no monkey-patching of interface/node classes", "class-hierarchy analysis over-approximates dispatch"]
@@ -516,9 +518,47 @@ def r6_4_helper_table(ctx: Ctx) -> None:
                    if not bad else f"the predicate that selects the {zone} zone is wrong for some destinations", bad[:6])
 
 
+def r6_7(ctx: Ctx) -> None:
+    """A router/firewall hands a frame to its *own* software only when the frame is addressed to one of its own interfaces (and is
+    ICMP or aimed at an open port).  Anything handed up that is not addressed to the router is passed on by RouterICMP.receive to
+    Router.process_frame - past the firewall's destination-zone check (the reason that call site is accepted in R6.1 is exactly this
+    predicate)."""
+    import itertools
+    from ..absval import UNKNOWN, Evaluator, walk
+    ix = ctx.ix
+    ctx.rule("R6.7", "check_send_frame_to_session_manager is true exactly for: addressed to an own interface AND (ICMP OR open port)")
+    f = ix.method("Router.check_send_frame_to_session_manager")
+    g = CFG(f.node)
+    ld = LocalDefs(f.node)
+    mine_t = next((unparse(c) for c in calls_in(f.node) if call_name(c) == "ip_is_router_interface"), None)
+    port_t = next((unparse(x) for x in ast.walk(f.node) if isinstance(x, ast.Compare) and len(x.ops) == 1 and isinstance(x.ops[0], ast.In)
+                   and "get_open_ports" in unparse(x.comparators[0])), None)
+    if mine_t is None or port_t is None:
+        raise AnalysisError("R6.7: own-interface test / open-port test not found in check_send_frame_to_session_manager")
+    bad = []
+    for mine, icmp, open_ in itertools.product((True, False), repeat=3):
+        env = {mine_t: mine, "frame.icmp": ("ICMP" if icmp else None), port_t: open_,
+               "frame.ip.protocol": "icmp" if icmp else "tcp", 'PROTOCOL_LOOKUP["TCP"]': "tcp", "PROTOCOL_LOOKUP['TCP']": "tcp",
+               'PROTOCOL_LOOKUP["UDP"]': "udp", "PROTOCOL_LOOKUP['UDP']": "udp", "frame.tcp.dst_port": 80, "frame.udp.dst_port": 80}
+        ev = Evaluator(env, ld)
+        out, node, _ = walk(g, ev)
+        if out != "return":
+            raise AnalysisError(f"R6.7: cannot evaluate check_send_frame_to_session_manager ({out})")
+        v = ev.ev(node.ast.value)
+        want = mine and (icmp or open_)
+        if v is UNKNOWN or bool(v) != want:
+            bad.append(f"addressed to an own interface={mine}, ICMP={icmp}, port open={open_}: answers {v}, expected {want}")
+    ctx.record("R6.7", ctx.key(f, "own software only for frames addressed to the router"), f.loc(), not bad,
+               "8-row table holds" if not bad else
+               "a frame that is not addressed to the router can be handed to its software (and from there be forwarded without the "
+               "destination zone's check), or one that is can be missed", bad[:4])
+
+
+
 def check(ctx: Ctx) -> None:
     r6_1(ctx)
     r6_4_helper_table(ctx)
+    r6_7(ctx)
     r6_2(ctx)
     r6_3(ctx)
     # a deny rule blocks only if the matcher says it matches and the scan stops at it, and a powered-off device is silent only
